@@ -24,6 +24,11 @@ type fcase struct {
 	Prog   string       `json:"prog"`
 	Mode   string       `json:"mode"` // "M1": consecutive-loss limit off; "M2": production setting
 	Faults []vsys.Fault `json:"faults"`
+	// Scenario "spaced": the spaced-losses history (runSpaced) on Prog "reuse"
+	// (two-shard producer) or "reuse1" (one-shard producer); Expected are the
+	// reference rows every round must deliver.
+	Scenario string   `json:"scenario,omitempty"`
+	Expected []string `json:"expected,omitempty"`
 }
 
 // cresult is what a child reports for one case.
@@ -52,6 +57,10 @@ type cresult struct {
 	// them (a keepalive timed out under load): losses that were not enumerated.
 	Spurious []string `json:"spurious,omitempty"`
 	Ms       int64    `json:"ms"`
+	// Spaced-losses history: rounds completed successfully, and kills of the
+	// replacement machine on receipt of Worker.Run for the producer task.
+	Rounds     int `json:"rounds,omitempty"`
+	ArmedKills int `json:"armed_kills,omitempty"`
 	// NotRun: the child gave up before this case (an earlier case hung).
 	NotRun bool `json:"not_run,omitempty"`
 	// Crash is set by the parent when the child died while running this case.
@@ -90,6 +99,9 @@ func setup() {
 
 // runCase executes one case on a fresh in-process cluster.
 func runCase(c fcase) cresult {
+	if c.Scenario == "spaced" {
+		return runSpaced(c)
+	}
 	r := cresult{ID: c.ID, ScanStart: -1}
 	p := programByName(c.Prog)
 	exec.VerifSetMaxConsecutiveLost(c.Mode != "M1")
@@ -219,6 +231,9 @@ func runCase(c fcase) cresult {
 	}
 	r.Ms = time.Since(t0).Milliseconds()
 	r.History = sys.History()
+	if r.Hung && len(r.History) > 3000 {
+		r.History = r.History[:3000] // a livelock issues RPCs for the whole minute
+	}
 	r.Fired = make([]bool, len(c.Faults))
 	for j, fd := range sys.Fired() {
 		r.Fired[vindex[j]] = fd
@@ -335,4 +350,141 @@ func batchBounds(b []byte) []int {
 		i += n
 	}
 	return out
+}
+
+const spacedRounds = 6
+
+// runSpaced is the spaced-losses history (production consecutive-loss limit
+// ON): r = Run(f); then spacedRounds rounds of { every live machine is killed
+// while idle (r's task outputs are lost); wait until the driver has marked r's
+// tasks LOST; Run(g, r) and scan, during which the replacement machine that
+// receives Worker.Run for r's shard-0 task is killed once }. In every round the
+// producer task is lost on exactly one attempt and then losses stop, so every
+// round must succeed with the reference rows: the losses of the long-lived task
+// are never 5 in a row.
+func runSpaced(c fcase) cresult {
+	r := cresult{ID: c.ID, ScanStart: -1, Fired: []bool{}, FiredAt: []int{}, Callee: []string{}}
+	r.Out.Rows = []string{}
+	exec.VerifSetMaxConsecutiveLost(true)
+	fA := fReuseA
+	if c.Prog == "reuse1" {
+		fA = fReuseA1
+	}
+	sys := vsys.New(2)
+	var mu sync.Mutex
+	armed := false
+	armedKills := 0
+	sys.Hook = func(call *vsys.Call) error {
+		mu.Lock()
+		defer mu.Unlock()
+		if armed && strings.HasPrefix(call.Label, "Worker.Run:inv_const_map@") && strings.Contains(call.Label, ":0#") && sys.Alive(call.Host) {
+			armed = false
+			armedKills++
+			sys.Kill(call.Host) // before the handler: the request never arrives
+		}
+		return nil
+	}
+	sess := exec.Start(exec.Bigmachine(loadTolerant{sys}), exec.Parallelism(4))
+	t0 := time.Now()
+	progress := make(chan int, spacedRounds+1)
+	done := make(chan outcome, 1)
+	go func() {
+		ctx := context.Background()
+		var o outcome
+		o.Rows = []string{}
+		fail := func(round int, what string, err string) {
+			o.RunErr = fmt.Sprintf("round %d: %s: %s", round, what, err)
+			done <- o
+		}
+		resA, err := sess.Run(ctx, fA)
+		if err != nil {
+			fail(0, "Run(f)", err.Error())
+			return
+		}
+		progress <- 0
+		gp := program{name: c.Prog, run: func(ctx context.Context, s *exec.Session) (*exec.Result, error) {
+			return s.Run(ctx, fReuseB, resA)
+		}}
+		for round := 1; round <= spacedRounds; round++ {
+			for _, h := range sys.Hosts() {
+				if sys.Alive(h) {
+					sys.Kill(h)
+				}
+			}
+			deadline := time.Now().Add(20 * time.Second)
+			for {
+				lost := true
+				for _, st := range exec.VerifResultTaskStates(resA) {
+					if !strings.HasSuffix(st, "=LOST") {
+						lost = false
+					}
+				}
+				if lost {
+					break
+				}
+				if time.Now().After(deadline) {
+					fail(round, "the driver did not mark the tasks of the killed machines LOST within 20 s", strings.Join(exec.VerifResultTaskStates(resA), " "))
+					return
+				}
+				time.Sleep(5 * time.Millisecond)
+			}
+			mu.Lock()
+			armed = true
+			mu.Unlock()
+			ro := runAndScan(ctx, &gp, sess)
+			if ro.RunErr != "" || ro.ScanErr != "" || !equalRows(ro.Rows, c.Expected) {
+				if ro.RunErr != "" {
+					ro.RunErr = fmt.Sprintf("round %d: %s", round, ro.RunErr)
+				}
+				if ro.ScanErr != "" {
+					ro.ScanErr = fmt.Sprintf("round %d: %s", round, ro.ScanErr)
+				}
+				done <- ro
+				return
+			}
+			o = ro
+			progress <- round
+		}
+		done <- o
+	}()
+loop:
+	for {
+		select {
+		case r.Out = <-done:
+			break loop
+		case n := <-progress:
+			r.Rounds = n
+		case <-time.After(hangTimeout): // per round
+			r.Hung = true
+			r.Out.Rows = []string{}
+			buf := make([]byte, 4<<20)
+			buf = buf[:runtime.Stack(buf, true)]
+			r.Dump = string(buf)
+			break loop
+		}
+	}
+	for len(progress) > 0 {
+		r.Rounds = <-progress
+	}
+	r.Ms = time.Since(t0).Milliseconds()
+	r.History = sys.History()
+	if len(r.History) > 3000 {
+		r.History = r.History[:3000]
+	}
+	r.Hosts = sys.Hosts()
+	r.Killed = sys.Killed()
+	for _, a := range exec.VerifC02StoppedMachines(sess) {
+		if h := strings.TrimPrefix(a, "http://"); !contains(r.Killed, h) {
+			r.Spurious = append(r.Spurious, h)
+		}
+	}
+	mu.Lock()
+	r.ArmedKills = armedKills
+	mu.Unlock()
+	if !r.Hung {
+		for _, h := range r.Hosts {
+			sys.Kill(h)
+		}
+	}
+	return r
 }
